@@ -6,10 +6,12 @@
 (*                                                                         *)
 (* IOEnv.TRACE_FILE is a JSON array of traces                              *)
 (*   [env, policy, path: [[k, a, how] ...], callables: [[unsafe, alters,   *)
-(*    name, denied] ...], ev: [event ...]]                                         *)
+(*    name, denied, recv] ...], ev: [event ...]]                           *)
+(* (C18: one `callables` entry per call the template was built to make --  *)
+(* the marks of the called object as they were when that render started)   *)
 (* every event is a record with the same fields                            *)
 (*   e   "fetch" | "gate" | "deliver" | "use" | "recv" | "callgate" | "ran"*)
-(*       | "changed" | "ins" | "end"                                       *)
+(*       | "changed" | "ins" | "end" | "begin"                             *)
 (*   o   data object number (0 = not a tracked object)                     *)
 (*   k   kind of the object (ObjKinds), container kind for "changed",      *)
 (*       base class for "ins" ("internal" | "template" | "unknown")        *)
@@ -33,6 +35,9 @@
 (*   changed   deep comparison of the containers after the render          *)
 (*   ins       one per Attribute / Subscript node of the generated Python  *)
 (*             code of the template (structural part of C17)               *)
+(*   end       the driver, after a render: how it ended                    *)
+(*   begin     the driver, before every render but the first one on the    *)
+(*             same environment                                            *)
 (*                                                                         *)
 (* `tid` picks the trace, `l` is the next event.  A trace is ACCEPTED when *)
 (* all its events were consumed; where a trace gets stuck TLC prints       *)
@@ -54,7 +59,7 @@ V(n) == IF n = 0 THEN Opaque ELSE <<n>>     \* value id of an event
 
 CallableRec(i) == [id |-> i, unsafe |-> H.callables[i].unsafe,
                    alters |-> H.callables[i].alters, name |-> H.callables[i].name,
-                   denied |-> H.callables[i].denied]
+                   denied |-> H.callables[i].denied, recv |-> H.callables[i].recv]
 
 (* the access path the template wrote, walked on the data by plain Python: one
    step per attribute-like lookup with the kind of the object it is applied to *)
@@ -67,7 +72,7 @@ SubscriptKinds == {"dict", "list", "deque", "str", "other"}
 TrInit ==
     /\ tid \in 1..Len(Traces)
     /\ l = 1
-    /\ conf = [env |-> H.env, impl |-> "abstract", policy |-> H.policy, icept |-> {}]
+    /\ conf = [env |-> H.env, impl |-> "abstract", policy |-> H.policy, icept |-> {}, multi |-> TRUE]
     /\ InitGate
 
 Adv == l' = l + 1 /\ UNCHANGED tid
@@ -135,8 +140,11 @@ TrEnd ==
     /\ outcome # "none" => Ev.s = outcome       \* a refused call surfaces as SecurityError
     /\ UNCHANGED vars
 
+(* the same environment renders again *)
+TrBegin == Ev.e = "begin" /\ NewRender
+
 Step == TrFetch \/ TrGate \/ TrDeliver \/ TrUse \/ TrRecv \/ TrCallGate \/ TrRan
-        \/ TrChanged \/ TrIns \/ TrEnd
+        \/ TrChanged \/ TrIns \/ TrEnd \/ TrBegin
 
 TrNext == More /\ Step /\ Adv
 
